@@ -10,6 +10,7 @@ Code inspired by/based on https://github.com/tomchy/suit-composer.
 from __future__ import annotations
 from dataclasses import dataclass
 from collections.abc import Mapping
+from decimal import Decimal
 from typing import cast, Any
 import functools
 import binascii
@@ -190,11 +191,17 @@ class SuitObject(PrettyPrintHelperMixin):
 
     @staticmethod
     def reject_shared_values(data: Any) -> None:
-        """Refuse CBOR value sharing (tags 28/29), a shared item is expanded again by every re-serialization."""
+        """Refuse CBOR value sharing (tags 28/29), a shared item is expanded again by every re-serialization.
+
+        A decimal fraction (tag 4) holding a signaling NaN is refused as well, comparing it with anything raises
+        decimal.InvalidOperation instead of an input error.
+        """
         seen = set()
         pending = [data]
         while pending:
             item = pending.pop()
+            if isinstance(item, Decimal) and item.is_snan():
+                raise ValueError("CBOR decimal fractions holding a signaling NaN are not supported!")
             if isinstance(item, cbor2.CBORTag):
                 children = [item.value]
             elif isinstance(item, Mapping):
